@@ -209,6 +209,12 @@ int main(int argc, char **argv)
             // optional 6th field: 1 switches transactions off (objects are added, moves processed, connectors routed immediately)
             sc.notx = false; sc.opsSinceTx = 0;
             { std::string h; if (is >> h) { sc.notx = (h == "1"); if (sc.notx) sc.r->setTransactionUse(false); } }
+            // optional 7th field: routing-option bits: 1 = nudgeOrthogonalSegmentsConnectedToShapes on,
+            // 2 = performUnifyingNudgingPreprocessingStep off, 4 = nudgeSharedPathsWithCommonEndPoint off
+            { int ob = 0; if (is >> ob) {
+                if (ob & 1) sc.r->setRoutingOption(nudgeOrthogonalSegmentsConnectedToShapes, true);
+                if (ob & 2) sc.r->setRoutingOption(performUnifyingNudgingPreprocessingStep, false);
+                if (ob & 4) sc.r->setRoutingOption(nudgeSharedPathsWithCommonEndPoint, false); } }
             printf("SCENE %s\n", sid.c_str());
             continue;
         }
